@@ -16,10 +16,11 @@
 (*   Adv          a whole poll with nothing in between (one MonitorInterval) *)
 (*                                                                         *)
 (* Fixed = FALSE is the code as found.  Fixed = TRUE is the proposed repair: *)
-(* RemovePeer stamps the address with a removal sequence number,             *)
-(* refreshPeers reads the sequence before it fetches and does not insert an  *)
-(* unknown peer that was removed after that (it is picked up by the next     *)
-(* poll if FRR still reports it).  s.rms = peers removed since the fetch.    *)
+(* the manager keeps the set of addresses RemovePeer removed since the       *)
+(* current (or last) status fetch began (s.rms: emptied when refreshPeers    *)
+(* starts to fetch, RemovePeer adds, AddPeer deletes) and the locked half    *)
+(* does not insert an unknown peer that is in the set (it is picked up by    *)
+(* the next poll if FRR still reports it).                                   *)
 (*                                                                         *)
 (* The spec carries the contract's ghost (Bfd.tla) and judges each of its    *)
 (* own steps with EdgeClauses/NodeClauses, exactly as BfdImpl does with the  *)
@@ -94,13 +95,13 @@ Frr(p, st) ==
 Add(p) ==
   LET hev == HEv("add", p, "", 0)
       ent == [st |-> IF s.frr[p].st = "absent" THEN "down" ELSE s.frr[p].st, rx |-> Cfg.drx, tx |-> Cfg.dtx, mult |-> Cfg.dmult]
-      x   == [s EXCEPT !.frr[p] = ent, !.cache[p] = Rec("Down", Cfg.drx, Cfg.dtx, Cfg.dmult)]
+      x   == [s EXCEPT !.frr[p] = ent, !.cache[p] = Rec("Down", Cfg.drx, Cfg.dtx, Cfg.dmult), !.rms = s.rms \ {p}]
       told == <<[kind |-> "peer", p |-> p, rx |-> Cfg.drx, tx |-> Cfg.dtx, mult |-> Cfg.dmult, acc |-> TRUE, multihop |-> FALSE]>>
   IN Take(hev, Edge(hev, 0, 0, <<>>, <<>>, told, x), x)
 
 Remove(p) ==
   LET hev == HEv("remove", p, "", 0)
-      x   == [s EXCEPT !.frr[p] = Absent, !.cache[p] = NoPeer, !.rms = IF s.held THEN s.rms \cup {p} ELSE {}]
+      x   == [s EXCEPT !.frr[p] = Absent, !.cache[p] = NoPeer, !.rms = s.rms \cup {p}]
       told == <<[kind |-> "nopeer", p |-> p, rx |-> 0, tx |-> 0, mult |-> 0, acc |-> TRUE, multihop |-> FALSE]>>
   IN Take(hev, Edge(hev, 0, 0, <<>>, <<>>, told, x), x)
 
@@ -112,7 +113,7 @@ PollBegin ==
 
 PollEnd ==
   LET hev == HEv("poll_end", 0, "", 0)
-      x   == [s EXCEPT !.held = FALSE, !.cache = Applied(s, s.snap), !.snap = [p \in P |-> Absent], !.rms = {}]
+      x   == [s EXCEPT !.held = FALSE, !.cache = Applied(s, s.snap), !.snap = [p \in P |-> Absent]]
       pl  == <<[ok |-> TRUE, snap |-> SnapWords(s.snap), stale |-> TRUE]>>
   IN /\ s.held
      /\ Take(hev, Edge(hev, 2500, 0, pl, CbsOf(s, s.snap), <<>>, x), x)
